@@ -199,9 +199,26 @@ fn reference(names: &[String], url: &str) -> Option<String> {
 fn run(rules: &[String], req: &Request, mode: usize, batch: usize) -> (bool, Option<String>) {
     use adblock::blocker::{Blocker, BlockerOptions};
     use adblock::filters::network::NetworkFilterMaskHelper;
+    // What the answer must NOT depend on: (a) queries answered before on the same engine — in every
+    // other case the same URL and type are first asked from two other initiators (one unrelated, one
+    // a.com); (b) the entry point — a third of the engine-mode cases go through
+    // check_network_request_subset with one of the flag combinations (the rewrite does not depend on
+    // whether an earlier engine matched).
+    let k = req.url.len() + rules.len();
+    let decoys: Vec<Request> = if k % 2 == 0 {
+        ["https://decoy.invalid/", "https://a.com/"].iter().filter_map(|s| Request::new(&req.url, s, &format!("{:?}", req.request_type).to_lowercase()).ok()).collect()
+    } else { vec![] };
+    let ask = |e: &Engine| {
+        for d in &decoys { let _ = e.check_network_request(d); }
+        match k % 3 {
+            0 => e.check_network_request_subset(req, true, false),
+            1 if k % 2 == 1 => e.check_network_request_subset(req, false, true),
+            _ => e.check_network_request(req),
+        }
+    };
     match mode {
-        0 => { let r = Engine::from_rules(rules.iter(), Default::default()).check_network_request(req); (r.important, r.rewritten_url) }
-        1 => { let r = Engine::from_rules_parametrised(rules.iter(), Default::default(), true, false).check_network_request(req); (r.important, r.rewritten_url) }
+        0 => { let r = ask(&Engine::from_rules(rules.iter(), Default::default())); (r.important, r.rewritten_url) }
+        1 => { let r = ask(&Engine::from_rules_parametrised(rules.iter(), Default::default(), true, false)); (r.important, r.rewritten_url) }
         _ => {
             let fs: Vec<NetworkFilter> = rules.iter().filter_map(|l| implrun::net::parse_net(l)).collect();
             let rs = adblock::resources::ResourceStorage::default();
@@ -214,6 +231,7 @@ fn run(rules: &[String], req: &Request, mode: usize, batch: usize) -> (bool, Opt
             };
             if mode == 2 || mode == 3 { b.optimize(); }
             if mode == 2 { b.optimize(); }
+            for d in &decoys { let _ = b.check(d, &rs); }
             let r = b.check(req, &rs);
             (r.important, r.rewritten_url)
         }
